@@ -323,7 +323,10 @@ class World:
                 kw[fname] = U.decode(f.vt, enc)
         for fname, sub in spec.get("ch", {}).items():
             if isinstance(sub, list):
-                kw[fname] = tuple([self.build(s) for s in sub]) if spec.get("tl") else tuple(self.build(s) for s in sub)
+                if spec.get("as_list"):
+                    kw[fname] = [self.build(s) for s in sub]  # the user handed a list to a tuple-annotated field
+                else:
+                    kw[fname] = tuple([self.build(s) for s in sub]) if spec.get("tl") else tuple(self.build(s) for s in sub)
             elif sub is None:
                 kw[fname] = None
             else:
@@ -965,7 +968,13 @@ class World:
         pre = self._pre_ids()
         try:
             d = o.duplicate()
+        except InjectedFault as e:
+            self.stats.probes["fault_fired:" + e.site] += 1
+            return "raised:InjectedFault"
         except Exception as e:  # noqa: BLE001
+            if op.get("fault") and op["fault"]["site"] not in FAULTS.armed:
+                self.stats.probes["fault_fired:" + op["fault"]["site"]] += 1
+                return "raised:" + type(e).__name__
             if self.on("C14"):
                 raise self.viol("C14.0 duplicate-raised", f"C14.0:{type(e).__name__}", f"duplicate() raised {type(e).__name__}: {e}") from None
             raise Cut(f"duplicate raised {type(e).__name__}") from None
@@ -1235,6 +1244,28 @@ class Gen:
         self.script = steps
         self.w.stats.probes["fault_script_started"] += 1
 
+    def start_failed_dup_script(self, actor: str) -> None:
+        """A duplicate() fails half-way (a user __post_init__ raises inside the copy); afterwards another tree is
+        duplicated, the copy detached, and the tree duplicated again: every copy is made of new, registered nodes."""
+        w = self.w
+        r = self.r("fdscript")
+        o = r.choice(self.cfg["origins"])
+        bt, t, d1 = self.out() + "b", self.out() + "t", self.out() + "d"
+        boom = {"c": "Seq", "p": {}, "ch": {"items": [{"c": "LeafA", "p": {"a": "k"}, "ch": {}, "o": o}, {"c": "Boom", "p": {"a": "b"}, "ch": {}, "o": o}]}, "o": o}
+        save = self.cfg["p_ref"]
+        self.cfg["p_ref"] = 0.0
+        tree = self.spec(r.choice([1, 2]))
+        self.cfg["p_ref"] = save
+        self.script = [
+            lambda a: {"op": "construct", "spec": boom, "out": bt},
+            lambda a: {"op": "construct", "spec": tree, "out": t},
+            lambda a: {"op": "duplicate", "n": {"h": bt, "path": []}, "out": self.out(), "fault": {"site": r.choice(["post_init_pre", "post_init_post"]), "k": 1}} if bt in w.handles else None,
+            lambda a: {"op": "duplicate", "n": {"h": t, "path": []}, "out": d1} if t in w.handles else None,
+            lambda a: {"op": "detach", "n": {"h": d1, "path": []}} if d1 in w.handles else None,
+            lambda a: {"op": "duplicate", "n": {"h": t, "path": []}, "out": self.out()} if t in w.handles else None,
+        ]
+        w.stats.probes["failed_dup_script_started"] += 1
+
     def start_id_repeat_script(self, actor: str) -> None:
         """The same content is created alone, dropped, and created again while a NEAR MISS of it (one property value /
         one child changed) is registered: it must get the id it got the first time."""
@@ -1424,6 +1455,9 @@ class Gen:
         if self.cfg["prop"] in ("C01", "C03", "C14") and r.random() < 0.35:
             self.start_wide_script(actor)
             return
+        if self.cfg["prop"] in ("C14", "C10", "C03") and self.cfg["faults"] and r.random() < 0.25:
+            self.start_failed_dup_script(actor)
+            return
         if self.cfg["prop"] in ("C03", "C14") and r.random() < 0.3:
             self.start_id_repeat_script(actor)
             return
@@ -1550,6 +1584,8 @@ class Gen:
         if "ref" in spec:
             spec = self.spec(0)
         op: dict[str, Any] = {"op": "construct", "spec": spec, "out": self.out()}
+        if self.cfg["prop"] == "C10" and not self.cfg["rtc"] and spec.get("c") in ("Seq", "SeqPlus", "Deco") and r.random() < 0.3:
+            spec["as_list"] = True
         if self.cfg["faults"] and r.random() < 0.03:
             # a construction that fails while a property value is being rendered for the digests (after other
             # properties were rendered already): an int too long for str()
@@ -1629,7 +1665,11 @@ class Gen:
         ref = self.pick_ref(actor, root_bias=0.7)
         if ref is None or len(walk(self.w.node_at(ref))) > 16:
             return None
-        return {"op": "duplicate", "n": ref, "out": self.out()}
+        op = {"op": "duplicate", "n": ref, "out": self.out()}
+        if self.cfg["faults"] and any(cname(x) == "Boom" for x in walk(self.w.node_at(ref))) and self.r("dupf").random() < 0.5:
+            # the copy fails half-way (a user __post_init__ raises): later duplicates start from a clean slate
+            op["fault"] = {"site": self.r("dupf").choice(["post_init_pre", "post_init_post"]), "k": 1}
+        return op
 
     def _gen_changes(self, o: Any, r: Any) -> dict[str, Any]:
         cls = cname(o)
@@ -1716,7 +1756,7 @@ class Gen:
         ref = self.pick_ref(actor, root_bias=0.7)
         if ref is None or len(walk(self.w.node_at(ref))) > 25:
             return None
-        op: dict[str, Any] = {"op": "ser", "n": ref, "fmt": r.choice(self.cfg["formats"]), "opts": r.choice([None, None, "idx", "sort", "idx+sort"]), "out": self.out()}
+        op: dict[str, Any] = {"op": "ser", "n": ref, "fmt": r.choice(self.cfg["formats"]), "opts": r.choice([None, None, "idx", "sort", "idx+sort", "explorer", "explorer+sort"]), "out": self.out()}
         if self.cfg["faults"] and self.cfg["ser_faults"] and r.random() < 0.3 and any(cname(x) == "Carrier" for x in walk(self.w.node_at(ref))):
             op["fault"] = {"site": "tok_ser", "k": r.choice([1, 1, 2])}
         if self.cfg.get("threads") and r.random() < 0.5:
@@ -2029,6 +2069,13 @@ def make_config(rseed: int, prop: str, tier: str, faults: bool) -> dict[str, Any
         # swarm: canonically equivalent but unequal strings (NFC / NFD, compatibility signs) side by side
         strpool = strpool[:2] + r.sample(["caf\u00e9", "cafe\u0301", "\u212b", "\u00c5", "\u2126", "\u03a9", "\uac00", "\u1100\u1161"], 4)
         pools["str"] = strpool
+    if prop in ("C01", "C03") and r.random() < 0.1:
+        # swarm: long texts next to their own checksums (content hashes are ordinary property values)
+        import hashlib
+
+        long = r.choice(["L" * 1300, "ab" * 2600, "x" * 70000])
+        strpool = strpool[:2] + [long, hashlib.blake2b(long.encode()).hexdigest(), hashlib.sha256(long.encode()).hexdigest(), hashlib.blake2b(long.encode(), digest_size=32).hexdigest()]
+        pools["str"] = strpool
     if prop in ("C04", "C16") and r.random() < 0.2:
         # swarm: strings that plain-scalar resolvers of text formats like to read as something else
         strpool = strpool[:2] + r.sample(["1e3", "7E-2", "12e45", "0x1F", "1_000", "yes", "No", "null", "~", "1:30", "0o17", ".inf", "2001-01-01", "=", "<<", "- a", "a: b", "#c", " lead", "trail ", "'q'", '"dq"', "\\n", "multi\nline"], 5)
@@ -2251,6 +2298,13 @@ def ser_opts(name: str | None) -> dict[str, Any] | None:
         return {SerializationOption.SORT_KEYS: True}
     if name == "idx+sort":
         return {SOURCE_OPTIMIZED_SERIALIZATION_KEY: True, SerializationOption.SORT_KEYS: True}
+    if name in ("explorer", "explorer+sort"):
+        from pyoak.node import AST_SERIALIZE_DIALECT_KEY, ASTSerializationDialects
+
+        d = {AST_SERIALIZE_DIALECT_KEY: ASTSerializationDialects.AST_EXPLORER}
+        if name.endswith("sort"):
+            d[SerializationOption.SORT_KEYS] = True
+        return d
     return None
 
 
